@@ -20,7 +20,7 @@ SYSTEMS = {
     "nicr_fcc": ("NICRAL_TDB", ["NI", "CR"], ["FCC_A1", "BCC_A2"], [(0.005, 0.35)], (1100, 1550)),
     "nial_fcc": ("NICRAL_TDB", ["NI", "AL"], ["FCC_A1", "BCC_A2"], [(0.005, 0.12)], (1200, 1550)),
     "fecrni_fcc": ("FECRNI_DB", ["FE", "CR", "NI"], ["FCC_A1", "BCC_A2"], [(0.01, 0.25), (0.08, 0.5)], (1150, 1550)),
-    "fecrni_bcc": ("FECRNI_DB", ["FE", "CR", "NI"], ["BCC_A2", "FCC_A1"], [(0.1, 0.6), (0.002, 0.05)], (900, 1500)),
+    "fecrni_bcc": ("FECRNI_DB", ["FE", "CR", "NI"], ["BCC_A2", "FCC_A1"], [(0.1, 0.6), (0.002, 0.05)], (950, 1500)),      # below ~905 K Fe-50Cr lies inside the bcc miscibility gap, which the equilibrium solver reports as one phase
     # element orders that are cyclic rotations of the alphabetical order (the un-sorting permutation is not its own inverse there)
     "nicral_fcc_rot": ("NICRAL_TDB", ["NI", "AL", "CR"], ["FCC_A1", "BCC_A2"], [(0.005, 0.14), (0.005, 0.30)], (1200, 1550)),
     "fecrni_fcc_rot": ("FECRNI_DB", ["FE", "NI", "CR"], ["FCC_A1", "BCC_A2"], [(0.08, 0.5), (0.01, 0.25)], (1150, 1550)),
